@@ -155,7 +155,13 @@ def run(tier):
                 # stages) iterates in one fixed order forever
                 try:
                     fz = ds.copy(freeze=True)
-                    of = [[int(x) for x in fz] for _ in range(3)]
+                    of = [[int(x) for x in fz]]
+                    # ... also when the pipeline it was copied from goes through further epochs / is frozen again meanwhile
+                    [int(x) for x in ds]
+                    of.append([int(x) for x in fz])
+                    fz2 = ds.copy(freeze=True)
+                    [int(x) for x in fz2]
+                    of.append([int(x) for x in fz])
                 except Exception as e:
                     of = [f'raised {type(e).__name__}'] * 3 + ['x']
                 if len(of) != 3 or of[0] != of[1] or of[1] != of[2] or sorted(of[0]) != list(range(spec[0][1])):
